@@ -21,6 +21,8 @@ func runC03(c *core.Ctx) {
 	c.Clause("C03.4 in-order, gap-free application is enforced; fsm.index writers")
 	h.applyInOrder("C03.4 apply-in-order")
 	h.isLogEntrySummaries("C03.4b isLogEntry")
+	c.Clause("C03.5 on restart the FSM is restored from the snapshot before its index is adopted")
+	h.servePrologue("C03.5 serve-prologue")
 }
 
 func runC07(c *core.Ctx) {
